@@ -5,8 +5,12 @@ union access and no intermediate objects.
 * a `std::variant` is a pair (active index, value); assignment to the same alternative assigns the element
   through, assignment to a different alternative destroys the old element and constructs the new one from the
   source (copy-then-move where [variant.assign] prescribes it), construction copy / move constructs the
-  element, a moved-from source keeps its index and holds the moved-from element; `swap` is the generic
-  three-move exchange; `emplace` and in-place construction set (index, value);
+  element, a moved-from source keeps its index and holds the moved-from element; `swap` is [variant.swap]
+  (`swapStdV`: same alternative: the elements are swapped; different: the values are exchanged), and the generic
+  three-move exchange `swapV` that `etl::swap` performs is proved equal to it under the one element law needed
+  (Props.swapV_eq_std); `emplace` and in-place construction set (index, value); the converting assignment
+  ([variant.assign]/13) assigns the argument to the held alternative when it is the selected one and constructs
+  the selected alternative from it otherwise;
 * a `std::optional` is an `Option`, ordered with `none` below every `some`;
 * a `std::expected` is a value or an error;
 * the converting constructor selects the alternative that overload resolution over the
@@ -44,8 +48,10 @@ def assignV (el : Elem α) (fb : α → Bool) (mv : Bool) (d s : V α) : V α ×
   if d.idx = s.idx then (⟨s.idx, (thru el mv d.val s.val).1⟩, ⟨s.idx, (thru el mv d.val s.val).2⟩)
   else (⟨s.idx, (cons el fb mv s.val).1⟩, ⟨s.idx, (cons el fb mv s.val).2⟩)
 
-/-- the generic `swap` of [utility.swap] on two distinct objects: `T t(move(a)); a = move(b); b = move(t);`
-    (only moves: no copy-then-move) -/
+/-- the generic `swap` of [utility.swap] applied to two distinct variant objects: `T t(move(a)); a = move(b);
+    b = move(t);` (only moves: no copy-then-move).  This is what `etl::swap` does (etl::variant has no member swap,
+    `etl::optional::swap` calls `etl::swap`); it is NOT the standard's definition of `variant::swap`, which is
+    `swapStdV` below. -/
 def swapV (el : Elem α) (a b : V α) : V α × V α :=
   let r1 := ctorV el true a
   let r2 := assignV el noFb true r1.2 b
@@ -56,6 +62,42 @@ def swapV (el : Elem α) (a b : V α) : V α × V α :=
 def swapSelfV (el : Elem α) (a : V α) : V α :=
   let r1 := ctorV el true a
   (assignV el noFb true r1.2 r1.1).1
+
+/-- the generic `swap` of [utility.swap] on two elements: `T t(move(x)); x = move(y); y = move(t);` -/
+def swapElem (el : Elem α) (x y : α) : α × α :=
+  let t := el.mc x
+  let r2 := el.ma t.2 y
+  let r3 := el.ma r2.2 t.1
+  (r2.1, r3.1)
+
+/-- [variant.swap] (and [optional.swap] / [expected.object.swap] seen on the variant member): both objects hold the
+    same alternative: `swap(get<i>(*this), get<i>(rhs))` on the elements; otherwise "exchanges values of rhs and
+    *this": each object ends up holding the other's alternative, move constructed from the other's value (how many
+    intermediate moves an implementation uses is not specified; one is the least) -/
+def swapStdV (el : Elem α) (a b : V α) : V α × V α :=
+  if a.idx = b.idx then (⟨a.idx, (swapElem el a.val b.val).1⟩, ⟨a.idx, (swapElem el a.val b.val).2⟩)
+  else (⟨b.idx, (el.mc b.val).1⟩, ⟨a.idx, (el.mc a.val).1⟩)
+
+/-- the element law under which the number of intermediate moves of an exchange cannot be observed: move constructing
+    from a move constructed value gives that value again (true for the element kinds of the harness: a
+    user-provided move constructor leaves the constant mark 2) -/
+def MoveIdem (el : Elem α) (x : α) : Prop := (el.mc (el.mc x).1).1 = (el.mc x).1
+
+/-- [variant.assign]/13.3: the new element of a converting assignment to a different alternative: constructed from
+    the argument, or - a `T_j` lvalue whose copy constructor may throw while the move constructor does not (`fb`) -
+    `emplace<j>(T_j(forward<T>(t)))`: copy constructed temporary, move constructed from it -/
+def consArgFb (el : Elem α) (fb : α → Bool) (cat : Arg) (x : α) : α × α :=
+  if cat = .lval && fb x then ((el.mc (el.cc x)).1, x) else consArg el cat x
+
+/-- [variant.assign]/13 `operator=(T&&)` with `T_j` the selected alternative: `T_j` is held: `get<j>(*this) =
+    forward<T>(t)`; otherwise `emplace<j>` (13.3).  [optional.assign] `operator=(U&&)` is the same with `j = 1` and no
+    fallback.  Returns (`*this`, the argument afterwards). -/
+def convAssignV (el : Elem α) (fb : α → Bool) (cat : Arg) (v : V α) (j : Nat) (x : α) : V α × α :=
+  if v.idx = j then (⟨j, (asgArg el cat v.val x).1⟩, (asgArg el cat v.val x).2)
+  else (⟨j, (consArgFb el fb cat x).1⟩, (consArgFb el fb cat x).2)
+
+/-- [variant.ctor] `variant(T&&)`: direct-non-list-initializes the selected alternative from `forward<T>(t)` -/
+def convCtorV (el : Elem α) (cat : Arg) (j : Nat) (x : α) : V α × α := (⟨j, (consArg el cat x).1⟩, (consArg el cat x).2)
 
 /-- one operation on the live objects; operations naming a non-existent object change nothing -/
 def step (el : Elem α) (fb : α → Bool) (st : List (V α)) : Op α → List (V α)
@@ -73,6 +115,10 @@ def step (el : Elem α) (fb : α → Bool) (st : List (V α)) : Op α → List (
     match st[k]?, st[j]? with
     | some a, some b => if k = j then st.set k (swapSelfV el a) else ((st.set k (swapV el a b).1).set j (swapV el a b).2)
     | _, _ => st
+  | .conv k j _ asg cat x =>
+    match st[k]? with
+    | some v => st.set k (if asg then (convAssignV el fb cat v j x).1 else (convCtorV el cat j x).1)
+    | none => st
 
 def run (el : Elem α) (fb : α → Bool) : List (V α) → List (Op α) → List (V α)
   | st, [] => st
@@ -85,6 +131,54 @@ def valid (n : Nat) (st : List (V α)) : Op α → Bool
   | .assign k j _ => k < st.length && j < st.length
   | .ctor k j _ => k < st.length && j < st.length
   | .swap k j => k < st.length && j < st.length
+  | .conv k j _ _ _ _ => k < st.length && j < n
+
+/-- the operation is in the class of known finding F-C07-copy-assign-no-copy-then-move: a *copy* (assignment from a
+    `const&` variant, converting assignment from an lvalue) that changes the alternative, of a value whose type asks
+    for copy-then-move (`fb`: potentially-throwing copy constructor, non-throwing move constructor) -/
+def fbAssign (fb : α → Bool) (mv : Bool) (d s : V α) : Bool := !mv && decide (d.idx ≠ s.idx) && fb s.val
+
+def fbConv (fb : α → Bool) (cat : Arg) (d : V α) (j : Nat) (x : α) : Bool := decide (cat = .lval) && decide (d.idx ≠ j) && fb x
+
+def fbHit (fb : α → Bool) (st : List (V α)) : Op α → Bool
+  | .assign k j mv =>
+    match st[k]?, st[j]? with
+    | some d, some s => decide (k ≠ j) && fbAssign fb mv d s
+    | _, _ => false
+  | .conv k j _ asg cat x =>
+    match st[k]? with
+    | some d => asg && fbConv fb cat d j x
+    | none => false
+  | _ => false
+
+/-- the detour of a converting assignment through a temporary variant (`convAssign` with `direct = false`) cannot be
+    told from the direct route: moving the temporary element into place gives what assigning / constructing from the
+    argument gives.  Holds for every scalar alternative (all its special members are the plain copy), and only
+    scalar alternatives take the detour. -/
+def ViaTempOK (el : Elem α) (cat : Arg) (v : V α) (j : Nat) (x : α) : Prop :=
+  (v.idx = j → ((el.ma v.val (consArg el cat x).1).1, (consArg el cat x).2) = asgArg el cat v.val x) ∧
+  (v.idx ≠ j → (el.mc (consArg el cat x).1).1 = (consArg el cat x).1)
+
+instance [DecidableEq α] (el : Elem α) (cat : Arg) (v : V α) (j : Nat) (x : α) : Decidable (ViaTempOK el cat v j x) := by
+  unfold ViaTempOK; exact inferInstance
+
+def ConvOK (el : Elem α) (st : List (V α)) : Op α → Prop
+  | .conv k j false true cat x =>
+    match st[k]? with
+    | some v => ViaTempOK el cat v j x
+    | none => True
+  | _ => True
+
+instance [DecidableEq α] (el : Elem α) (st : List (V α)) (op : Op α) : Decidable (ConvOK el st op) := by
+  unfold ConvOK
+  split
+  · split <;> exact inferInstance
+  · exact inferInstance
+
+/-- a history whose operations all are valid, outside the known-finding class and (for the detour) `ConvOK` -/
+def OkRun (n : Nat) (el : Elem α) (fb : α → Bool) : List (V α) → List (Op α) → Prop
+  | _, [] => True
+  | st, op :: ops => valid n st op = true ∧ fbHit fb st op = false ∧ ConvOK el st op ∧ OkRun n el fb (step el fb st op) ops
 
 def validRun (n : Nat) (el : Elem α) (fb : α → Bool) : List (V α) → List (Op α) → Bool
   | _, [] => true
@@ -118,7 +212,10 @@ def optRel (o : RelOps α β) (r : Rel) : Option α → Option β → Bool
 
 inductive OOp (α : Type) where
   | reset (k : Nat)                       -- reset(), = nullopt, optional(nullopt)
-  | emplace (k : Nat) (x : α)             -- emplace(x), optional(x), = x, converting forms after conversion
+  | emplace (k : Nat) (x : α)             -- emplace(x), optional(in_place, x)
+  | val (k : Nat) (asg direct : Bool) (cat : Arg) (x : α)
+      -- `asg`: operator=(U&&) [optional.assign], also `= optional<U>` from an engaged source (cat = conv);
+      -- otherwise optional(U&&) [optional.ctor].  `direct`: how etl reaches it (see Model.convAssign); no effect here
   | assign (k j : Nat) (mv : Bool)
   | ctor (k j : Nat) (mv : Bool)
   | swap (k j : Nat)
@@ -148,6 +245,12 @@ def swapSelfO (el : Elem α) (a : Option α) : Option α :=
 def ostep (el : Elem α) (st : List (Option α)) : OOp α → List (Option α)
   | .reset k => st.set k none
   | .emplace k x => st.set k (some x)
+  | .val k asg _ cat x =>
+    -- [optional.assign]: engaged: `**this = forward<U>(v)`; empty (and construction): initialized from `forward<U>(v)`
+    match st[k]? with
+    | some (some d) => st.set k (some (if asg then (asgArg el cat d x).1 else (consArg el cat x).1))
+    | some none => st.set k (some (consArg el cat x).1)
+    | none => st
   | .assign k j mv =>
     match st[k]?, st[j]? with
     | some d, some s => if k = j then st else ((st.set k (assignO el mv d s).1).set j (assignO el mv d s).2)
@@ -163,13 +266,35 @@ def ostep (el : Elem α) (st : List (Option α)) : OOp α → List (Option α)
 
 /-- how `etl::optional` implements its operations on its `variant<nullopt_t,T>` member
     (`nullv` is the `nullopt_t` payload): `reset() = _var.emplace<0>(nullopt)`, `emplace = _var.emplace<1>`,
-    copy/move/swap = the variant's (defaulted members, generic `etl::swap`) -/
+    copy/move/swap = the variant's (defaulted members, generic `etl::swap`); value construction / assignment =
+    the variant's converting forms with the engaged alternative selected -/
 def optToVar (nullv : α) : OOp α → Op α
   | .reset k => .emplace k 0 nullv
   | .emplace k x => .emplace k 1 x
+  | .val k asg direct cat x => .conv k 1 direct asg cat x
   | .assign k j mv => .assign k j mv
   | .ctor k j mv => .ctor k j mv
   | .swap k j => .swap k j
+
+/-- [optional.swap]: both engaged: the elements are swapped; one engaged: the empty one is initialized from
+    `std::move` of the other's value, which is then destroyed; both empty: nothing -/
+def swapStdO (el : Elem α) : Option α → Option α → Option α × Option α
+  | some x, some y => (some (swapElem el x y).1, some (swapElem el x y).2)
+  | some x, none => (none, some (el.mc x).1)
+  | none, some y => (some (el.mc y).1, none)
+  | none, none => (none, none)
+
+/-- [optional.observe] value_or on lvalues (`mv = false`) and rvalues: (returned value, the optional afterwards) -/
+def valueOrCatO (el : Elem α) (mv : Bool) (o : Option α) (d : α) : α × Option α :=
+  match o with
+  | some x => if mv then ((el.mc x).1, some (el.mc x).2) else (el.cc x, some x)
+  | none => ((el.mc d).1, none)
+
+/-- [optional.monadic] or_else: (contained value of the result, or `none` = `f()` is returned; the optional afterwards) -/
+def orElseCatO (el : Elem α) (mv : Bool) (o : Option α) : Option α × Option α :=
+  match o with
+  | some x => if mv then (some (el.mc x).1, some (el.mc x).2) else (some (el.cc x), some x)
+  | none => (none, none)
 
 /-! ### expected -/
 
@@ -239,6 +364,12 @@ def expToVar (viaEmplace : Bool) : EOp α → Op α
 def E.valueOr (d : α) : E α → α
   | .val x => x
   | .err _ => d
+
+/-- [expected.object.obs] value_or on lvalues / rvalues: (returned value, the expected afterwards) -/
+def valueOrCatE (el : Elem α) (mv : Bool) (e : E α) (d : α) : α × E α :=
+  match e with
+  | .val x => if mv then ((el.mc x).1, .val (el.mc x).2) else (el.cc x, .val x)
+  | .err y => ((el.mc d).1, .err y)
 
 def E.andThen {ρ : Type} (f : α → ρ) (onErr : α → ρ) : E α → ρ
   | .val x => f x
